@@ -21,7 +21,7 @@ Definition step_t (t : tbl) (nb : nat) := Shell2.step (t_contains t) (t_cube t) 
 
 Extraction "shell.ml" step_t t_add t_empty Shell2.init.
 Extraction "estim.ml" EstimExec.Ztot EstimExec.neffQ EstimExec.volQ EstimExec.mkSh EstimExec.mkDy.
-Extraction "union.ml" Union2.ustep.
+Extraction "union.ml" Union2.ustep Union2.uinit.
 Extraction "prior.ml" PriorModel.add_parameter PriorAsIs.add_asis PriorModel.dimensionality PriorModel.empty
   PriorModel.unit_to_physical PriorModel.unit_to_dictionary QArith_base.Qplus QArith_base.Qmult QArith_base.Qminus Qreduction.Qred.
 Extraction "crash.ml" Crash.atomic_trace.
